@@ -116,7 +116,7 @@ Qed.
 
 Theorem rotated_planar_orbit_elements : forall (L : libm R) (L2 : libm2 R), l_acos L2 = acos -> l_pi L = PI ->
   forall tiny G t0 prim m a e (t : trig R) p0 o inc Om c_o s_o c_i s_i c_O s_O,
-  C11.OrbitProofs.trig_ok t -> 0 < G * (m + pm prim) -> C11.OrbitProofs.shape_ok a e -> -1 < e * cf t -> tiny <= pm prim ->
+  C11.OrbitProofs.trig_ok t -> 0 < G * (m + pm prim) -> C11.OrbitProofs.shape_ok a e -> -1 < e * cf t -> tiny < pm prim ->
   ci t = cos inc -> si t = sin inc -> 0 < inc < PI -> cO t = cos Om -> sO t = sin Om -> - PI < Om <= PI ->
   c_o * c_o + s_o * s_o = 1 -> c_i * c_i + s_i * s_i = 1 -> c_O * c_O + s_O * s_O = 1 ->
   co t = c_o * c_o - s_o * s_o -> so t = 2 * s_o * c_o -> ci t = c_i * c_i - s_i * s_i -> si t = 2 * s_i * c_i ->
